@@ -95,7 +95,7 @@ class Ext2(_Extension):
     _properties = OrderedDict([("b", P.StringProperty())])
 
 
-def prop_extensions(c1: bool, has1: bool, c2: bool, has2: bool, has_unreg: bool, has_extdef: bool, order: int, allow: bool) -> bool:
+def prop_extensions(c1: bool, has1: bool, c2: bool, has2: bool, has_unreg: bool, has_extdef: bool, order: int, allow: bool, inst1: bool = False, inst2: bool = False) -> bool:
     """
     pre: has1 or has2 or has_unreg or has_extdef
     pre: 0 <= order <= 1
@@ -107,9 +107,11 @@ def prop_extensions(c1: bool, has1: bool, c2: bool, has2: bool, has_unreg: bool,
     try:
         items = []
         if has1:
-            items.append(("probe-ext", {"a": "x", "x_c": 1} if c1 else {"a": "x"}))        # consistently built children: real custom content, not a forced flag
+            v1 = {"a": "x", "x_c": 1} if c1 else {"a": "x"}        # consistently built children: real custom content, not a forced flag
+            items.append(("probe-ext", Ext(allow_custom=True, **v1) if inst1 else v1))        # ... given as a dictionary or as a ready-made instance
         if has2:
-            items.append(("other-ext", {"b": "y", "x_d": 2} if c2 else {"b": "y"}))
+            v2 = {"b": "y", "x_d": 2} if c2 else {"b": "y"}
+            items.append(("other-ext", Ext2(allow_custom=True, **v2) if inst2 else v2))
         if has_unreg:
             items.append(("x-unknown-ext", {"q": 1}))
         if has_extdef:
@@ -179,7 +181,10 @@ def _sites():
     b21 = {"type": "bundle", "id": "bundle--" + UU, "objects": [copy.deepcopy(mal)]}
     rel = {"type": "relationship", "spec_version": "2.1", "id": "relationship--" + UU, "created": "2020-01-01T00:00:00.000Z",
            "modified": "2020-01-01T00:00:00.000Z", "relationship_type": "uses", "source_ref": "malware--" + UU, "target_ref": "identity--" + UU}
-    bases = [("2.1", mal), ("2.1", f), ("2.0", od20), ("2.1", b21), ("2.1", rel)]
+    rel20 = {k: v for k, v in rel.items() if k != "spec_version"}
+    rep20 = {"type": "report", "id": "report--" + UU, "created": "2020-01-01T00:00:00.000Z", "modified": "2020-01-01T00:00:00.000Z", "name": "r",
+             "published": "2020-01-01T00:00:00Z", "labels": ["threat-report"], "object_refs": ["malware--" + UU]}
+    bases = [("2.1", mal), ("2.1", f), ("2.0", od20), ("2.1", b21), ("2.1", rel), ("2.0", rel20), ("2.0", rep20)]
     inj = [
         # (base index, description, path, value, insert-first)
         (0, "top-level custom property", "x_foo", 1), (0, "custom property in embedded object", "external_references.0.x_foo", 1),
@@ -198,7 +203,16 @@ def _sites():
                                                                         {"type": "x-custom", "id": "x-custom--" + UU, "a": 1}),
         (3, "custom property on the bundle", "x_foo", 1), (3, "custom embedded content in bundle member", "objects.0.external_references.0.x_foo", 1),
         (4, "relationship to custom type", "target_ref", "x-custom--" + UU), (4, "top-level custom on SRO", "x_foo", 1),
+        # values that are false-y but kept: the property is custom content whatever it holds
+        (0, "custom property holding the empty string", "x_e1", ""), (0, "custom property holding an empty object", "x_e2", {}),
+        (0, "custom property holding false", "x_e3", False), (0, "custom property holding 0", "x_e4", 0),
+        (1, "custom property holding the empty string on an SCO", "x_e1", ""),
+        (0, "custom property holding the empty string in an embedded object", "external_references.0.x_e1", ""),
+        # a type registered for 2.1 only is a custom type for a 2.0 object
+        (5, "2.0 relationship to a 2.1-only type", "target_ref", "location--" + UU), (5, "2.0 relationship from a 2.1-only type", "source_ref", "note--" + UU),
+        (6, "2.0 report referring to a 2.1-only type", "object_refs.1", "grouping--" + UU),
     ]
+    # custom properties given as null / [] are dropped: no custom content results (DROPPED sites carry no injection)
     return bases, inj
 
 
@@ -274,6 +288,47 @@ def run_inject_case(i, j):
     text = o.serialize()
     again = strict(json.loads(text))
     return o.has_custom == (not again) and o.has_custom == has_injection
+
+
+DROP_SITES = [(0, "x_n"), (0, "external_references.0.x_n"), (0, "kill_chain_phases.0.x_n"), (1, "x_n"), (1, "extensions.ntfs-ext.x_n"),
+              (2, "objects.0.x_n"), (3, "objects.0.x_n"), (4, "x_n"), (5, "x_n")]
+
+
+def dropped_custom_values(si: int, vi: int, also: int) -> bool:
+    """
+    pre: 0 <= si < 9 and 0 <= vi < 2 and 0 <= also <= NINJ
+    post: _
+    """
+    si, vi, also = pick(si, 9), pick(vi, 2), pick(also, NINJ + 1)
+    with Native():
+        ok = run_dropped_case(si, vi, also)
+    V.reached()
+    return ok
+
+
+def run_dropped_case(si, vi, also):
+    """a custom property given as null / [] is dropped by the constructor, so it is not custom content: with customization allowed the flag
+    still equals 'a strict parse of the serialization is refused' (alone: false; next to a real injection: true)"""
+    bi, path = DROP_SITES[si]
+    ver, base = BASES[bi]
+    if also < NINJ and INJ[also][0] != bi:
+        return True
+    doc = set_path(base, path, [None, []][vi])
+    if also < NINJ:
+        doc = set_path(doc, INJ[also][2], INJ[also][3])
+    try:
+        o = stix2.parse(doc, allow_custom=True, version=ver if doc["type"] != "bundle" else None)
+    except (STIXError, ValueError, TypeError):
+        return False
+    text = o.serialize()
+    if '"x_n"' in text:
+        return False
+    try:
+        stix2.parse(json.loads(text), allow_custom=False, version=ver if doc["type"] != "bundle" else None)
+        again = True
+    except (STIXError, ValueError, TypeError):
+        again = False
+    return o.has_custom == (not again) and o.has_custom == (also < NINJ)
 
 
 # ---------------------------------------------------------------- the switch on stores and unknown types
